@@ -72,6 +72,147 @@ def cls_sig(kind, cls):
     return "e2e/%s/%s" % (kind, "+".join(sorted(set(c for c in cls.split(",") if c))) or "plain")
 
 
+# ---------------------------------------------------------------- metrics (suite e2e_metrics; spec lean/SigModel/Spec/Metrics.lean)
+# which recorded deviation classes (cls= of the specification's answer, see Spec/Metrics.lean `classes`) can explain which
+# kind of disagreement; a disagreement that none of the query's classes can explain is reported without class
+M_SELECT = {"absent-label-matcher", "same-label-twice", "no-tags", "tsid-preimage-collision"}
+M_LABELS = {"value-has-comma", "json-escaped-tag-value", "tsid-preimage-collision"}
+M_RELEVANT = {
+    "series-missing": M_SELECT,
+    "series-extra": {"absent-label-matcher", "same-label-twice", "tsid-preimage-collision"},
+    "series-merged": {"name-regex-same-tagset", "tsid-preimage-collision"},
+    "series-duplicated": set(),
+    "labels-changed": M_LABELS,
+    "point-missing": {"tsid-preimage-collision", "absent-label-matcher"},
+    "point-extra": {"tsid-preimage-collision"},
+    "value-bits-changed": {"negative-zero", "tsid-preimage-collision", "name-regex-same-tagset"},
+    "query-error": set(),
+}
+M_AGG = M_SELECT | M_LABELS | {"name-regex-same-tagset", "by-label-absent", "hetero-keys", "by-label-suffix-of-other-key", "without-removes-all-labels"}
+
+
+def m_sig(what, cls):
+    """e2em/<what> for inputs outside every recorded deviation class that could explain <what>, else
+    e2em/<what>/<class+class> (the aggregation function is part of <what> only in the first case)"""
+    rel = M_AGG if what.startswith("agg") else M_RELEVANT.get(what, set())
+    c = "+".join(sorted(set(c for c in cls if c and c in rel)))
+    if not c:
+        return "e2em/" + what
+    return "e2em/%s/%s" % ("agg" if what.startswith("agg/") else what, c)
+
+
+def m_parse_series(s):
+    """'<hexname>{k=hexv,…}@ts:val,…;…' → list of (namehex, labels, {ts: val})"""
+    out = []
+    for item in s.split(";"):
+        if not item:
+            continue
+        head, _, pts = item.partition("}@")
+        name, _, labels = head.partition("{")
+        d = {}
+        for p in pts.split(","):
+            if p:
+                t, _, v = p.partition(":")
+                d[int(t)] = v
+        out.append((name, "{" + labels + "}", d))
+    return out
+
+
+def m_show(key):
+    name, labels = key
+    inner = ",".join(k + "=" + unhex(v) for k, _, v in (x.partition("=") for x in labels.strip("{}").split(",") if x))
+    return (unhex(name) if name else "") + "{" + inner + "}"
+
+
+def compare_metrics(ia, mb, qi):
+    """selectors: exact equality of the series set, label sets, timestamps and value BITS; aggregations: exact
+    rationals (avg: up to rounding).  Declared latitude (never silent):
+      * lat=unaligned   : some selected point is not on the start of its downsample bucket for this query range; the engine
+                          reports bucket starts and merges points of one bucket, so only series and label sets are compared;
+      * lat=inexact-sum : sum/avg over values that are not small integers: compared up to floating-point rounding;
+      * namere=1        : the selector matches __name__ by regex; the engine reports the name as "*" (the statements speak
+                          about tag keys/values); names are not compared, label sets are;
+      * aggregation results: PromQL drops the metric name, the engine keeps it (or "*"); names are not compared;
+      * a result series without any point (e.g. count() over an empty selection) is the same as no series."""
+    fails = []
+    kind = mb.get("kind")
+    cls = [c for c in mb.get("cls", "").split(",") if c]
+    lat = set(c for c in mb.get("lat", "").split(",") if c)
+    if kind in ("bad-range", "magg-undefined"):
+        return fails  # the specification does not define an answer
+    if ia.get("kind") == "error":
+        return [(m_sig("query-error", cls), "%s query %d answered with an error: %s" % (kind, qi, unhex(ia.get("err", ""))[:200]))]
+    if ia.get("kind") != kind:
+        return [("e2em/protocol/kind", "query %d: impl kind %s model kind %s" % (qi, ia.get("kind"), kind))]
+    agg = kind == "magg"
+    strip_name = agg or mb.get("namere") == "1"
+    exp, got = m_parse_series(mb.get("ser", "")), m_parse_series(ia.get("ser", ""))
+    got = [g for g in got if g[2]]  # latitude: a result series without a single point carries no answer
+
+    def keyed(lst):
+        d = {}
+        for name, labels, pts in lst:
+            d.setdefault(("" if strip_name else name, labels), []).append(pts)
+        return d
+    E, G = keyed(exp), keyed(got)
+    what_groups = "agg-groups" if agg else None
+    missing = sorted(k for k in E if k not in G)
+    extra = sorted(k for k in G if k not in E)
+    dup_exp = sorted(k for k in E if len(E[k]) > 1)
+    dup_got = sorted(k for k in G if len(G[k]) > 1)
+    if dup_got:
+        fails.append((m_sig(what_groups or "series-duplicated", cls), "query %d: the same series is reported more than once: %s" % (qi, [m_show(k) for k in dup_got][:4])))
+    if dup_exp:
+        # distinct series (different names) with equal tag sets under a name regex: they must stay distinct
+        fails.append((m_sig("series-merged", cls), "query %d: %d distinct series with tag set %s (different names) are reported as one" % (qi, len(E[dup_exp[0]]), m_show(dup_exp[0]))))
+    if missing or extra:
+        if agg:
+            fails.append((m_sig("agg-groups", cls), "query %d: groups missing %s, groups not expected %s" % (qi, [m_show(k) for k in missing][:4], [m_show(k) for k in extra][:4])))
+        elif missing and extra and any(E[m][0] == G[x][0] for m in missing for x in extra):
+            # the same points under other labels
+            fails.append((m_sig("labels-changed", cls), "query %d: series %s not returned, series %s (same points) returned but never ingested under these labels" % (qi, [m_show(k) for k in missing][:4], [m_show(k) for k in extra][:4])))
+        elif missing and extra:
+            fails.append((m_sig("series-missing", cls), "query %d: series %s not returned" % (qi, [m_show(k) for k in missing][:4])))
+            fails.append((m_sig("series-extra", cls), "query %d: series %s returned but not expected (not selected by the matchers, or never ingested under these labels)" % (qi, [m_show(k) for k in extra][:4])))
+        elif extra:
+            fails.append((m_sig("series-extra", cls), "query %d: series %s returned but not expected (not selected by the matchers, or never ingested under these labels)" % (qi, [m_show(k) for k in extra][:4])))
+        else:
+            # are the points of the missing series found inside another returned series?
+            merged = False
+            for k in missing:
+                for pts in E[k]:
+                    for gk, gl in G.items():
+                        own = set(t for ep in E.get(gk, []) for t in ep)
+                        if any(all(gp.get(t) == v and t not in own for t, v in pts.items()) for gp in gl):
+                            merged = True
+            fails.append((m_sig("series-merged" if merged else "series-missing", cls), "query %d: series %s not returned%s" % (qi, [m_show(k) for k in missing][:4], " (their points appear inside another series)" if merged else "")))
+    if "unaligned" in lat:
+        return fails
+    for k in sorted(E):
+        if k not in G or len(E[k]) != 1 or len(G[k]) != 1:
+            continue
+        ep, gp = E[k][0], G[k][0]
+        ets, gts = set(ep), set(gp)
+        if ets != gts:
+            what = "point-missing" if ets - gts else "point-extra"
+            if agg:
+                what = "agg/" + mb.get("fn", "?")
+            fails.append((m_sig(what, cls), "query %d series %s: timestamps missing %s, not expected %s" % (qi, m_show(k), sorted(ets - gts)[:6], sorted(gts - ets)[:6])))
+        bad = [(t, ep[t], gp[t]) for t in sorted(ets & gts) if ep[t] != gp[t]]
+        if not bad:
+            continue
+        if agg:
+            fn = mb.get("fn", "?")
+            if fn == "avg" or "inexact-sum" in lat:
+                bad = [(t, e, g) for t, e, g in bad if g in ("nan", "inf") or not close(e, g)]
+            if bad:
+                fails.append((m_sig("agg/" + fn, cls), "query %d group %s: (ts, expected, got) %s" % (qi, m_show(k), bad[:6])))
+        else:
+            negz = all(e == "8000000000000000" and g == "0000000000000000" for _, e, g in bad)
+            fails.append((m_sig("value-bits-changed", cls + (["negative-zero"] if negz else [])), "query %d series %s: (ts, ingested bits, returned bits) %s" % (qi, m_show(k), bad[:6])))
+    return fails
+
+
 def compare(impl, model):
     fails = []
     if impl.startswith("worker-") or impl == "panic":
@@ -93,6 +234,9 @@ def compare(impl, model):
     for qi, (a, b) in enumerate(zip(isegs, msegs)):
         ia, mb = seg_parse(a), seg_parse(b)
         kind = mb.get("kind")
+        if kind in ("mseries", "magg", "magg-undefined", "bad-range"):
+            fails += compare_metrics(ia, mb, qi)
+            continue
         cls = mb.get("cls", "")
         if ia.get("kind") == "error":
             if "by-field-sparse" in cls.split(","):
